@@ -413,7 +413,7 @@ func (c *crawlGen) seed(cfg *Cfg) []QRow {
 		if c.Chance(1, 3) {
 			n = 4 + c.N(8) // more outlinks than any stage channel can buffer
 		}
-		if c.o.Prop == "C15" && !c.bigHub && c.Chance(1, 2) {
+		if c.o.Prop == "C15" && !cfg.UseHQ && !c.bigHub && c.Chance(1, 2) {
 			n = 101 + c.N(120) // more outlinks than one queue batch holds: size-triggered batches, several in flight
 			c.bigHub = true
 		}
